@@ -80,10 +80,13 @@ type seqZone struct {
 	Data  zoneSpec                `json:"rrsets"`                  // data names
 	Alias map[string]cname        `json:"cnames,omitempty"`        // alias -> target (a data name or an alias that points to a data name)
 	Extra map[string]*[3]*extraRR `json:"extra_records,omitempty"` // query name -> HTTPS, A, AAAA
+	// Neg: TTL and MINIMUM of the SOA record that the server puts into the authority section of a NOERROR response
+	// without answers (RFC 2308). It is a record of the response: the negative answer may not outlive it.
+	Neg *[2]uint32 `json:"negative_answer_soa,omitempty"`
 }
 
 func (z *seqZone) clone() *seqZone {
-	c := &seqZone{Data: z.Data.clone(), Alias: map[string]cname{}, Extra: map[string]*[3]*extraRR{}}
+	c := &seqZone{Data: z.Data.clone(), Alias: map[string]cname{}, Extra: map[string]*[3]*extraRR{}, Neg: z.Neg}
 	for k, v := range z.Alias {
 		c.Alias[k] = v
 	}
@@ -128,6 +131,11 @@ func (z *seqZone) response(name string, k int) (all, own, cn, ex []uint32, end s
 	if e != nil && !e.Before {
 		all = append(all, e.TTL)
 	}
+	if len(all) == 0 && z.Neg != nil {
+		// an empty answer section: the authority section carries the SOA
+		ex = []uint32{z.Neg[0], z.Neg[1]}
+		all = append(all, ex...)
+	}
 	return all, own, cn, ex, end
 }
 
@@ -158,7 +166,11 @@ func (z *seqZone) install(srv *dohfake.Server, v int) {
 			poison[dohfake.Key{Name: name, Type: qtypes[k]}] = p
 		}
 	}
-	srv.Update(func(zz *dohfake.Zone) { zz.RRs, zz.Poison = rrs, poison })
+	var neg *dohfake.NegSOA
+	if z.Neg != nil {
+		neg = &dohfake.NegSOA{TTL: z.Neg[0], Minimum: z.Neg[1]}
+	}
+	srv.Update(func(zz *dohfake.Zone) { zz.RRs, zz.Poison, zz.NegSOA = rrs, poison, neg })
 }
 
 func (z *seqZone) dataNames() []string {
@@ -272,6 +284,10 @@ func (e *env) seqHistory(work string, idx int, rng *mrand.Rand) {
 	// All four names exist in the zone; 0..2 of them are CNAME aliases (the second one may point to the first: a
 	// chain of two), the others carry data. The history looks up 1..4 of them, aliases preferred.
 	spec := &seqZone{Data: zoneSpec{}, Alias: map[string]cname{}, Extra: map[string]*[3]*extraRR{}}
+	if rng.IntN(2) == 0 {
+		t := []uint32{0, 1, 2, 5, 30, 60, 300, 3600}
+		spec.Neg = &[2]uint32{t[rng.IntN(len(t))], t[rng.IntN(len(t))]}
+	}
 	perm := rng.Perm(len(pool))
 	nAlias := []int{0, 1, 1, 2, 2}[rng.IntN(5)]
 	for i, k := range perm {
@@ -602,6 +618,8 @@ func forcedBy(en *entry, age int64) string {
 	switch {
 	case len(en.CN) > 0 && age >= int64(minTTL(en.CN)):
 		return "cname"
+	case len(en.Ex) > 0 && len(en.TTLs) == len(en.Ex) && len(en.Own) == 0 && len(en.CN) == 0 && len(en.Ex) == 2 && age >= int64(minTTL(en.Ex)):
+		return "authority-soa"
 	case len(en.Ex) > 0 && age >= int64(minTTL(en.Ex)):
 		return "extra-record"
 	}
